@@ -212,8 +212,16 @@ def stub_approx_derivative(fun, x0, method="3-point", rel_step=None, abs_step=No
     rec = dict(method=method, rel_step=rel_step, abs_step=abs_step, f0=f0, bounds=(lb, ub), x0=list(x0.data), pts=[])
     ST.fd_calls.append(rec)
     per = 2 if method == "3-point" else 1
+    # SciPy's behaviour on a degenerate side: with lb_i == ub_i the adjusted step is zero (the "stencil" point is
+    # x0 itself) and, for the real-valued schemes, the i-th derivative comes back as nan = 0/0
+    # (validated on the real SciPy by replay/real_runs.py:fd_modes)
+    degenerate = [bool(lbd[i] == ubd[i]) if not (lbd[i].is_special or ubd[i].is_special) else False for i in range(n)]
     for i in range(n):
         for s in range(per):
+            if degenerate[i]:
+                fun(np.array(list(x0.data)))
+                rec["pts"].append(list(x0.data))
+                continue
             # the step is a function of x0 (and of the fixed options/bounds): functional, so that two runs agree
             h = ST.run.prob.fd_h(list(x0.data) + [SReal.of(i), SReal.of(s)])[0]
             p = list(x0.data)
@@ -243,6 +251,9 @@ def stub_approx_derivative(fun, x0, method="3-point", rel_step=None, abs_step=No
         CTX.assume(w.z() > 0, check=False)
         corr = (true - SReal.of(f0)) * w
         out = [v + corr for v in out]
+    if method != "cs":
+        from symx.scalar import NAN
+        out = [SReal(NAN) if degenerate[i] else out[i] for i in range(n)]
     return np.array(out)
 
 
